@@ -44,7 +44,7 @@ inductive Expect where
   | any                                    -- nothing specific
   | sendExactly (prop : String) (evs : List Event)   -- a send with exactly this payload, now (`prop`: the property that demands it)
   | noSend (prop : String)                 -- anything but a send
-  | nothing                                -- no further call at all (after End / after a failure)
+  | nothing (prop : String)                -- no further call at all: after End (`prop` = C10) / after a failure (C20)
 deriving Repr, Inhabited
 
 structure Spec where
@@ -77,7 +77,7 @@ def timeoutOk (tol : Nat) (spec impl : Nat) : Bool :=
 def checkCall (tol : Nat) (x : Spec) (c : VCall) : Spec :=
   let x :=
     match x.expect, c with
-    | Expect.nothing, _ => x.flag "C20/call-after-return"
+    | Expect.nothing prop, _ => x.flag (prop ++ "/call-after-return")
     | Expect.sendExactly prop evs, VCall.send evs' =>
       if evs == evs' then x else x.flag (prop ++ "/wrong-send-payload")
     | Expect.sendExactly prop _, _ => x.flag (prop ++ "/missing-send")
@@ -113,7 +113,7 @@ def checkCall (tol : Nat) (x : Spec) (c : VCall) : Spec :=
 def applyResp (L : Layout) (x : Spec) (c : VCall) (r : Resp) (ts : Nat) : Spec :=
   let x := { x with lastTs := ts }
   match r with
-  | Resp.err _ => { x with expect := Expect.nothing }
+  | Resp.err _ => { x with expect := Expect.nothing "C20" }
   | _ =>
   match c, r with
   | VCall.poll _, Resp.poll PollRes.timedOut =>
@@ -133,7 +133,7 @@ def applyResp (L : Layout) (x : Spec) (c : VCall) (r : Resp) (ts : Nat) : Spec :
   | VCall.poll _, Resp.poll PollRes.interrupted => { x with expect := Expect.noSend "C10" }
   | VCall.poll _, Resp.poll (PollRes.deviceEvent devs) => { x with notified := devs, expect := Expect.noSend "C10" }
   | VCall.nk, Resp.kbd Next.busy => { x with notified := x.notified.filter (· != Dev.keyboard), expect := Expect.noSend "C10" }
-  | VCall.nk, Resp.kbd Next.end_ => { x with expect := Expect.nothing }
+  | VCall.nk, Resp.kbd Next.end_ => { x with expect := Expect.nothing "C10" }
   | VCall.nk, Resp.kbd (Next.one ev) =>
     if x.inTablet then { x with expect := Expect.noSend "C12" }
     else
@@ -155,7 +155,7 @@ def applyResp (L : Layout) (x : Spec) (c : VCall) (r : Resp) (ts : Nat) : Spec :
       if out.2.events.isEmpty then { x with expect := Expect.noSend "C10" }
       else { x with expect := Expect.sendExactly "C10" out.2.events }
   | VCall.nt, Resp.tab Next.busy => { x with notified := x.notified.filter (· != Dev.tablet), expect := Expect.noSend "C10" }
-  | VCall.nt, Resp.tab Next.end_ => { x with expect := Expect.nothing }
+  | VCall.nt, Resp.tab Next.end_ => { x with expect := Expect.nothing "C10" }
   | VCall.nt, Resp.tab (Next.one tev) =>
     let out := releaseAll L x.s
     let x := { x with s := out.1, armed := none, tabletCleared := true,
